@@ -430,7 +430,7 @@ impl Prop for C12 {
         Meta {
             id: "C12",
             level: "exploration",
-            rule: "all ordered tuples (superset of the multisets) of <= k filters from a pool of 19 (positive / negative / event / marker x enabled / disabled x plain / negated, overlapping ECU / APID / payload / lifecycle criteria) x a 30-message stream (2 ECUs x {no extended header, 2 APIDs} x 2 lifecycles x 2 texts + 6 repeated messages), through filter_as_streams, through match_filters on the container built by StreamContext::from, and through the remote stream path process_stream_new_msgs (called like the server loop, chunk limits 1 / 7 / unlimited). Oracle from the statement (single-filter decisions from the independent C11 evaluator): selection, forwarded messages equal to the received ones, original order, passed + filtered = received and passed = number forwarded, event clause for match_filters, agreement of both implementations when no enabled event filter is present. A case is non-trivial when the statement keeps some but not all messages.".into(),
+            rule: "all ordered tuples (superset of the multisets) of <= k filters from a pool of 19 (positive / negative / event / marker x enabled / disabled x plain / negated, overlapping ECU / APID / payload / lifecycle criteria) x a 30-message stream (2 ECUs x {no extended header, 2 APIDs} x 2 lifecycles x 2 texts + 6 repeated messages), through filter_as_streams, through match_filters on the container built by StreamContext::from, and through the remote stream path process_stream_new_msgs (called like the server loop, chunk limits 1 / 7 / unlimited); searches: the paged stream_search sessions of the C16 explorer (stream filter set x search filter set x page size x start, following next_search_idx) on the real server handlers. Oracle from the statement (single-filter decisions from the independent C11 evaluator): selection, forwarded messages equal to the received ones, original order, passed + filtered = received and passed = number forwarded, event clause for match_filters, agreement of both implementations when no enabled event filter is present. A case is non-trivial when the statement keeps some but not all messages.".into(),
             assumptions: vec![
                 "filter_as_streams is the convert path: the statement's event clause ('for streams and searches') is applied to match_filters only".into(),
                 "the export plugin is not driven; it builds its container like StreamContext::from (enabled filters only) and calls the same match_filters".into(),
@@ -448,6 +448,7 @@ impl Prop for C12 {
                 "negated_filter_in_set",
                 "same_filter_twice",
                 "agreement_checked(no_enabled_event_filter)",
+                "server_search",
             ],
         }
     }
@@ -475,9 +476,19 @@ impl Prop for C12 {
                 return;
             }
         }
+        // searches on the real server handlers
+        crate::c16::search_family(ctx);
     }
 
+    fn prepare(&self, _t: Tier) -> Result<(), String> {
+        crate::rem::build_adlt_bin()
+    }
     fn replay(&self, case: &Value, ctx: &mut Ctx) {
+        if case["family"] == "server_search" {
+            ctx.mine();
+            crate::c16::replay_scenario(case, ctx);
+            return;
+        }
         let fx = Fixture::new();
         let set: Vec<&PoolEntry> = case["filters"]
             .as_array()
